@@ -279,6 +279,28 @@ pub fn units() -> Vec<Unit> {
             ],
         },
         Unit {
+            name: "mixin",
+            toggles: vec![(0, 1, 2)],
+            has_tests: false,
+            slots: vec![
+                Slot {
+                    path: "src/a_src_if.veryl",
+                    variants: vec![
+                        "interface SrcIf {\n    var x: logic;\n    modport mp_x {\n        x: input,\n    }\n}\n",
+                        "interface SrcIf {\n    var x : logic;\n    var x2: logic;\n    modport mp_x {\n        x : input,\n        x2: input,\n    }\n}\n",
+                    ],
+                },
+                Slot {
+                    path: "src/m_host_if.veryl",
+                    variants: vec![
+                        "interface HostIf {\n    mixin SrcIf;\n    var y: logic;\n    modport mp {\n        ..input\n    }\n}\nmodule HostUser (\n    p: modport HostIf::mp,\n    o: output logic         ,\n) {\n    assign o = p.x & p.y;\n}\n",
+                        "interface HostIf {\n    mixin SrcIf;\n    var y: logic;\n    modport mp {\n        x: input,\n        y: input,\n    }\n}\nmodule HostUser (\n    p: modport HostIf::mp,\n    o: output logic         ,\n) {\n    assign o = p.x & p.y;\n}\n",
+                        "interface HostIf {\n    var y: logic;\n    modport mp {\n        ..input\n    }\n}\nmodule HostUser (\n    p: modport HostIf::mp,\n    o: output logic         ,\n) {\n    assign o = p.y;\n}\n",
+                    ],
+                },
+            ],
+        },
+        Unit {
             name: "tests",
             toggles: vec![],
             has_tests: true,
